@@ -44,14 +44,20 @@ PredReturn(name, expected) ==
             /\ C(name, Ev.res = expected)
     /\ UNCHANGED vars
 
+\* index lists carry their own shape (length / pairs)
+IdxReturn(name, expected) ==
+    /\ C("must-raise-TypeError", ExpPred # "raise")
+    /\ IF ExpPred = "either" THEN TRUE ELSE C(name, Ev.res = expected)
+    /\ UNCHANGED vars
+
 TIsUnlabeled == IsEvent("IsUnlabeled")
                 /\ PredReturn("marks-exactly-the-missing-entries", IsUnlabeled(y))
 TIsLabeled   == IsEvent("IsLabeled")
                 /\ PredReturn("complement-of-is_unlabeled", IsLabeled(y))
 TUnlabeledIndices == IsEvent("UnlabeledIndices")
-                /\ PredReturn("missing-entries-in-row-major-order", UnlabeledIndices(y))
+                /\ IdxReturn("missing-entries-in-row-major-order", UnlabeledIndices(y))
 TLabeledIndices   == IsEvent("LabeledIndices")
-                /\ PredReturn("present-entries-in-row-major-order", LabeledIndices(y))
+                /\ IdxReturn("present-entries-in-row-major-order", LabeledIndices(y))
 
 \* encoder calls
 TFit == /\ IsEvent("Fit")
